@@ -21,6 +21,8 @@ const INVALID_UTF8: &[&[u8]] = &[&[0xff], &[0xc3, 0x28], &[0x80], &[b'a', 0xe2, 
 pub fn value() -> BoxedStrategy<Vec<u8>> {
     prop_oneof![
         4 => gens::text(8).prop_map(|s| s.into_bytes()),
+        // valid UTF-8 that looks suspicious: the replacement character itself, a BOM, NUL, noncharacters
+        1 => (gens::text(3), proptest::sample::select(&["\u{fffd}", "\u{feff}", "\u{0}", "\u{ffff}", "\u{10ffff}", "a\u{fffd}b"][..]), gens::text(3)).prop_map(|(a, m, b)| format!("{}{}{}", a, m, b).into_bytes()),
         1 => Just(vec![]),
         2 => vec(any::<u8>(), 1..6),
         1 => proptest::sample::select(INVALID_UTF8).prop_map(|b| b.to_vec()),
